@@ -15,11 +15,20 @@ harness has a watchdog for hangs only).
 
 The model is of the tree WITH findings/C19-a, C19-b, C19-c, C19-e applied; the
 `legacy_*_counterexample` theorems show each of the four defects on the pre-fix shape.
+
+CLI side (`kubectl package tree`, section "config resolution"): `Pko.Model.TreeConfig` models
+`(*Tree).getConfig` / `getTemplateContext` / `RenderPackage` with the nil-map write of
+`defaulting.Default` (reached through `AdmitPackageConfiguration`) as its panic branch;
+`no_panic_treeRenderPackage` proves it unreachable for every combination of --config-path,
+--config-testcase, test templates, schema and scope, because `getConfig` never returns the nil map
+(`getConfig_ok_nonnil`).  Stream `cli` ties that model to the real entry points.
 -/
 import Pko.Model.Panic
 import Pko.Model.PanicCensusExpect
 import Pko.Gen.PanicCensus
 import Pko.Model.PanicScn
+import Pko.Model.TreeConfig
+import Pko.Lemmas.C19Tree
 
 namespace Pko.Props.C19
 open Pko.Model.Panic
@@ -394,6 +403,99 @@ theorem legacy_fromOCI_counterexample :
 example : fromOCI [.entry true false, .error] 0 = .err := by decide
 example : fromOCI [.entry false true, .entry true true, .eof] 0 = .ok 1 := by decide
 
+/-! ## kubectl-package CLI: config resolution of `tree` (`Pko.Model.TreeConfig`) -/
+section tree
+open Pko.Model.TreeConfig hiding renderPackage
+open Pko.Lemmas.C19Tree (NoNullRaw)
+
+/-- **`(*Tree).getConfig` never panics**: for every --config-path (absent, missing file, any
+document), every --config-testcase, every list of test templates. -/
+theorem no_panic_getConfig (tpls : List TestTpl) (o : Opts) : getConfig tpls o ≠ .panic :=
+  Pko.Lemmas.C19Tree.getConfigFrom_ne_panic _ _ _
+
+/-- **`getConfig` never returns (nil map, nil error)**: whenever it returns without error the map is
+allocated — for every option combination and every template list whose `Raw` is not the JSON
+literal `null` (which decoding a `*runtime.RawExtension` never produces). -/
+theorem getConfig_ok_nonnil (tpls : List TestTpl) (hraw : NoNullRaw tpls) (o : Opts) (m : GoMap)
+    (h : getConfig tpls o = .ok m) : m ≠ .nil :=
+  Pko.Lemmas.C19Tree.getConfigFrom_ok_nonnil _ (by simp) tpls hraw o m h
+
+/-- `…_partial` (hypothesis `NoNullRaw`): config resolution followed by admission — prune,
+DEFAULT, validate — never panics, for every schema (with or without defaults / required).  Full
+statement over everything the manifest decoder can produce: `no_panic_treeRenderPackage`; without
+the hypothesis it is false: `treeConfig_raw_null_counterexample`. -/
+theorem no_panic_treeConfig_partial (tpls : List TestTpl) (hraw : NoNullRaw tpls) (o : Opts) (schema : Schema) :
+    (getConfig tpls o).bind (fun m => admitConfig m schema) ≠ .panic :=
+  bind_ne_panic _ _ (no_panic_getConfig tpls o) fun m hm =>
+    Pko.Lemmas.C19Tree.admitConfig_ne_panic m (getConfig_ok_nonnil tpls hraw o m hm) schema
+
+theorem no_panic_treeRenderPackage_partial (scopes : List String) (schema : Schema) (tpls : List TestTpl)
+    (hraw : NoNullRaw tpls) (o : Opts) :
+    Pko.Model.TreeConfig.renderPackage scopes schema tpls o ≠ .panic := by
+  unfold Pko.Model.TreeConfig.renderPackage
+  apply bind_ne_panic _ _ (Pko.Lemmas.C19Tree.getTemplateContext_ne_panic tpls o)
+  intro ctx _
+  apply bind_ne_panic _ _ (no_panic_getConfig tpls o)
+  intro m hm
+  apply bind_ne_panic _ _ (Pko.Lemmas.C19Tree.admitConfig_ne_panic m (getConfig_ok_nonnil tpls hraw o m hm) schema)
+  intro a _
+  repeat' split
+  all_goals first | (simp; done) | (simp; split <;> simp)
+
+/-- **`kubectl package tree` never panics while resolving and admitting the configuration**: for
+every manifest (scopes, config schema with any defaults / required properties, test templates
+with `context.config` absent, `null`, an object or anything else, `context.package` present or
+not, duplicate names included) and every option combination (--config-path absent / missing file /
+mapping / null or empty document / scalar / not YAML, --config-testcase absent / known / unknown,
+--cluster), `RenderPackage` returns a tree or an error. -/
+theorem no_panic_treeRenderPackage (scopes : List String) (schema : Schema)
+    (src : List (String × Option Doc × TplPkg)) (o : Opts) :
+    Pko.Model.TreeConfig.renderPackage scopes schema
+      (src.map fun (n, c, p) => { name := n, config := decodeConfig c, pkg := p }) o ≠ .panic :=
+  no_panic_treeRenderPackage_partial _ _ _ (Pko.Lemmas.C19Tree.noNullRaw_decoded src) o
+
+/-- Why `NoNullRaw` is needed: were `Raw` the literal `null`, `json.Unmarshal` would reset the map
+to nil, the first-template branch would return it, and defaulting would write into it. -/
+theorem treeConfig_raw_null_counterexample :
+    (getConfig [{ name := "t", config := some .null }] {}).bind
+      (fun m => admitConfig m (some [{ name := "greeting", hasDefault := true }])) = .panic := by
+  decide
+
+/-- Why the allocation at the top of `getConfig` matters: started from the nil map, the early return
+for a selected test template WITHOUT `context.config` hands the nil map to admission, and a schema
+with one top-level default panics ("assignment to entry in nil map").  The check
+`if config == nil` after the loop does not help, it is never reached on that path. -/
+theorem treeConfig_nil_start_counterexample :
+    getConfigFrom .nil [{ name := "t", config := none }] { testcase := "t" } = .ok .nil ∧
+    admitConfig .nil (some [{ name := "greeting", hasDefault := true }]) = .panic := by
+  decide
+
+/-- The "test template not found" check after the loop is dead code: an unknown --config-testcase
+renders with the empty configuration. -/
+theorem getConfig_unknown_testcase_ok (tpls : List TestTpl) (tc : String) (htc : tc ≠ "")
+    (h : ∀ t ∈ tpls, t.name ≠ tc) : getConfig tpls { testcase := tc } = .ok (.mk []) := by
+  have hl : ∀ m, tcLoop tc tpls m = .fall m := by
+    induction tpls with
+    | nil => intro m; rfl
+    | cons t ts ih =>
+      intro m
+      unfold tcLoop
+      have : t.name ≠ tc := h t List.mem_cons_self
+      simp [this, ih (fun x hx => h x (List.mem_cons_of_mem _ hx))]
+  simp [getConfig, getConfigFrom, htc, hl]
+
+/-- non-vacuity: the entry point reaches ok and error, and the model's panic branch is real -/
+example : Pko.Model.TreeConfig.renderPackage ["Namespaced"] (some [{ name := "greeting", hasDefault := true }])
+    [{ name := "t", config := none, pkg := { name := "p", ns := "n" } }] { testcase := "t" } = .ok () := by decide
+example : Pko.Model.TreeConfig.renderPackage ["Namespaced"] none [] { configPath := .missing } = .err := by decide
+example : Pko.Model.TreeConfig.renderPackage ["Namespaced"] none [] { cluster := true } = .err := by decide
+example : Pko.Model.TreeConfig.renderPackage ["Cluster"] (some [{ name := "name", required := true }]) []
+    { configPath := .file (.obj ["other"]) } = .err := by decide
+example : admitConfig .nil (some [{ name := "greeting", hasDefault := true }]) = .panic := by decide
+example : admitConfig .nil (some [{ name := "greeting" }]) ≠ .panic := by decide
+
+end tree
+
 /-! ## non-vacuity: every modelled function reaches `ok` and `err` -/
 
 example : mapConditions [("Available", "Avail")]
@@ -419,6 +521,26 @@ example : renderPackage ["a", "b"] [some [(phaseKey, "b"), (cmKey, "A=>B")], som
     = .ok [("a", [0]), ("b", [1])] := by decide
 
 /-! ## monitor versus model -/
+
+open Pko.Drv.C19 Pko.Model.TreeConfig in
+/-- The `tree` line of the model is never a panic: scenario templates go through `decodeConfig`. -/
+theorem treeOut_never_panic (i : TreeIn) : ∀ _ : treeOut i = Out.panic, False := by
+  intro h
+  have hraw : Pko.Lemmas.C19Tree.NoNullRaw i.tpls := Pko.Lemmas.C19Tree.noNullRaw_decoded i.src
+  have hr := no_panic_treeRenderPackage_partial i.scopes i.schema i.tpls hraw i.opts
+  have hg := no_panic_getConfig i.tpls i.opts
+  unfold treeOut at h
+  split at h
+  · rename_i hp; exact hr hp
+  · dsimp only at h
+    split at h
+    · rename_i hp; exact hg hp
+    · cases h
+    · rename_i m hm
+      have ha := Pko.Lemmas.C19Tree.admitConfig_ne_panic m (getConfig_ok_nonnil _ hraw _ m hm) i.schema
+      split at h
+      · rename_i hp; exact ha hp
+      · split at h <;> cases h
 
 open Pko.Drv.C19 in
 /-- The model never predicts a panic, for every scenario line. -/
@@ -450,10 +572,13 @@ theorem modelOut_never_panic (s : Scn) : ∀ _ : modelOut s = Out.panic, False :
       · exact ofOutcome_ne _ _ (no_panic_celPlace _ _ _) h
       · cases h
     · cases h
+  · split at h
+    · cases h
+    · exact treeOut_never_panic _ h
   all_goals cases h
 
 open Pko.Drv.C19 in
-/-- every line the model prints for a normal return starts with `o`, `e`, `n` or `u` -/
+/-- every line the model prints for a normal return starts with `o`, `e`, `n`, `u` or `t` -/
 theorem classify_render (o : Out) (h : ∀ _ : o = Out.panic, False) : classify (render o) = .normal := by
   cases o with
   | ok l =>
@@ -464,6 +589,7 @@ theorem classify_render (o : Out) (h : ∀ _ : o = Out.panic, False) : classify 
   | nopanic => decide
   | panic => exact absurd rfl (fun hp => h hp)
   | bad w => simp [render, classify, String.toList_append]
+  | line l => simp [render, classify, String.toList_append]
 
 open Pko.Drv.C19 in
 /-- **monitor (model s) = ok**: the monitored predicate (no `PANIC`, no `TIMEOUT`, no harness
